@@ -169,6 +169,16 @@ Example C12_ex_reassembled :
   end = Some (project nat zn ex_src ex_tgt ex_v, repeat [] 9).
 Proof. vm_compute. reflexivity. Qed.
 
+(* the per-row placeholder of Convert: the deepest shared group (here the root)
+   sits at levels (0, 0) and has no direct leaf child; no source column is read *)
+Example C12_ex_placeholder :
+  let src := NGroup (NCons 1 Req (NGroup (NCons 2 Req (NLeaf 7) NNil)) NNil) in
+  let tgt := NGroup (NCons 1 Req (NGroup (NCons 2 Req (NLeaf 7) NNil))
+                    (NCons 5 Opt (NLeaf 7) (NCons 6 Req (NLeaf 8) NNil))) in
+  plan nat zn src tgt 0 0 = [ACopy 0; AHold None; AHold (Some 0)] /\
+  convert_columns nat zn src tgt [[(Some 4, 0, 0)]] = Some [[(Some 4, 0, 0)]; [(None, 0, 0)]; [(Some 0, 0, 0)]].
+Proof. vm_compute. split; reflexivity. Qed.
+
 (* incompatible: field 2 is a leaf in the target, field 3 changes repetition *)
 Example C12_ex_rejected :
   convert_columns nat zn ex_src (NGroup (NCons 2 Rpt (NLeaf 7) NNil)) [] = None /\
